@@ -267,3 +267,17 @@ func ICalDuration(d time.Duration) string {
 	}
 	return "PT" + strconv.FormatInt(s, 10) + "S"
 }
+
+// TimeIn is an arbitrary instant (whole seconds) carried in one of three
+// zones: 0 UTC, 1 a fixed +01:00 zone, 2 a fixed -05:00 zone.
+func TimeIn(name string, zone int) time.Time {
+	sec := intval(name)
+	t := time.Unix(sec-62135596800, 0).UTC()
+	switch zone {
+	case 1:
+		return t.In(time.FixedZone("VZ1", 3600))
+	case 2:
+		return t.In(time.FixedZone("VZ2", -18000))
+	}
+	return t
+}
